@@ -23,8 +23,9 @@ func (v *Value) MarshalNBT(w io.Writer) (err error) {
 
 	case nbt.TagList:
 		// Take a look at the first element's tag.
-		// If length == 0, use TagEnd
-		elemType := nbt.TagEnd
+		// If length == 0, use the element type the list was decoded with
+		// (TagEnd for a list that was not decoded).
+		elemType := v.elem
 		length := len(v.list)
 		if length > 0 {
 			elemType = v.list[0].tag
